@@ -233,7 +233,9 @@ func run(c *mon.Ctx) {
 		checkOne(c, s, kind, r)
 		if bytes.IndexByte(s, 0x47) >= 0 {
 			if c.Class(fmt.Sprintf("rand/%s/reader=%d", class(s), kind)) && c.WantSample() && len(s) < 30 && refSync(s) > 2 {
-				c.Sample(func() interface{} { return wit{mon.Hex(s), fmt.Sprint("kind ", kind), "", fmt.Sprint("offset ", refSync(s))} })
+				c.Sample(func() interface{} {
+					return wit{mon.Hex(s), fmt.Sprint("kind ", kind), "", fmt.Sprint("offset ", refSync(s))}
+				})
 			}
 		}
 	})
